@@ -105,7 +105,10 @@ pub fn gen_queue_client(tapes: &[Vec<u32>]) -> RawCase {
     let mut script: Vec<PStep> = vec![PStep::Barrier];
     // one disturbance somewhere among the answers: a new limit, with or without a pause in the peer's reading
     let disturb_at = if t.chance(3, 4) { Some(t.below(total)) } else { None };
-    let new_limit = 1 + t.below(4) as u32;
+    // (0 = no new streams at all; the peer raises it again a little later)
+    let new_limit = t.below(5) as u32;
+    let raise_to = 1 + t.below(3) as u32;
+    let raise_after = 20 + t.below(80);
     let mut disturbance = String::from("none");
     let for_key = |key: u32, step: PStep| PStep::ForKey { key, step: Box::new(step) };
     for nth in 0..total {
@@ -148,6 +151,11 @@ pub fn gen_queue_client(tapes: &[Vec<u32>]) -> RawCase {
             } else {
                 disturbance = format!("limit->{}", new_limit);
                 script.push(set);
+            }
+            if new_limit == 0 {
+                disturbance.push_str(&format!("->{}", raise_to));
+                script.push(PStep::Yield(raise_after));
+                script.push(fr_settings(raise_to));
             }
         }
     }
@@ -243,7 +251,7 @@ impl Engine for QueueEngine {
         gen_queue_client(tapes)
     }
     fn rule(&self) -> String {
-        "h2 client against the reference peer advertising MAX_CONCURRENT_STREAMS 1–3: 1–3 more requests than the limit (each on its own SendRequest clone, optionally a follow-up parked in poll_ready), the slots of the open streams released by the peer's END_STREAM / the client's own END_STREAM after an early complete response (bodies up to 30000 B) / explicit send_reset / loss of every handle / the peer's RST_STREAM after generated delays, the peer changing the limit to 1–4 at a generated point, optionally while it has stopped reading (client output pipe 300–9000 B); non-trivial = at least one request had to wait for a slot (its HEADERS follow the closing of an earlier stream, or it is still queued at the end)".into()
+        "h2 client against the reference peer advertising MAX_CONCURRENT_STREAMS 1–3: 1–3 more requests than the limit (each on its own SendRequest clone, optionally a follow-up parked in poll_ready), the slots of the open streams released by the peer's END_STREAM / the client's own END_STREAM after an early complete response (bodies up to 30000 B) / explicit send_reset / loss of every handle / the peer's RST_STREAM after generated delays, the peer changing the limit to 0–4 at a generated point (0 is raised again a little later), optionally while it has stopped reading (client output pipe 300–9000 B); non-trivial = at least one request had to wait for a slot (its HEADERS follow the closing of an earlier stream, or it is still queued at the end)".into()
     }
     fn shrink_iters(&self) -> u32 {
         400
